@@ -1018,6 +1018,10 @@ pub const GLOBAL_KINDS: &[&str] = &[
     "sbparam", "cb", "cbuf", "gv", "gs", "st",
     // wave 11: other declaration forms of the same things
     "sbmulti", "sbns", "sbst", "sbex", "sblocal", "cbmem",
+    // sbtwo: ONE struct template instantiated twice, both instances element types: `WT<float>` (agrees) first, then `WT<S>`
+    // = `{S}`; decoy: resources and variables of every other kind holding a float3 (12/4 vs 16/16), used in main through
+    // untyped / non-templated intrinsics - validation must not look at any of them (the site's type is only declared)
+    "sbtwo", "decoy",
 ];
 /// how compile() is called: np / pipe as before; npo = no pipeline mode + source_info + a user define + buffer addresses
 /// supported only when a site needs them; pname = two pipelines in the file, `pipeline_name` selects one, source_info
@@ -1189,6 +1193,16 @@ fn prog_source(p: &Prog) -> (String, ProgLines) {
             "sbparam" => format!("void fparam{}(StructuredBuffer<{}> p) {{}}", i, a),
             "cb" => format!("ConstantBuffer<{}> g{};", a, i),
             "cbuf" => format!("cbuffer CB{} {{ {} cbm{}; }}", i, n, i),
+            "sbtwo" => format!(
+                "template<typename T> struct WT{} {{ T m; }}; StructuredBuffer<WT{}<float> > g{}z; StructuredBuffer<WT{}<{}> > g{};",
+                i, i, i, i, a, i
+            ),
+            "decoy" => format!(
+                "Buffer<float3> d{i}a; RWBuffer<float3> d{i}b; Texture2D<float3> d{i}c; RWTexture2D<float3> d{i}d; SamplerState d{i}e; \
+                 ByteAddressBuffer d{i}f; static const float3 d{i}g = float3(1, 2, 3); float3 d{i}h; groupshared float3 d{i}j[2]; \
+                 RWByteAddressBuffer d{i}l; StructuredBuffer<float> d{i}s; RWStructuredBuffer<uint> d{i}u;",
+                i = i
+            ),
             "sbmulti" => format!("StructuredBuffer<{}> g{}x[2], g{};", a, i, i),
             "sbns" => format!("namespace NG{} {{ StructuredBuffer<{}> g{}; }}", i, a, i),
             "sbst" => format!("static StructuredBuffer<{}> g{};", a, i),
@@ -1308,6 +1322,12 @@ fn prog_source(p: &Prog) -> (String, ProgLines) {
             "sl" => s.lines.push(format!("  static {}", stmts(site, i, var, n))),
             "hb" => s.lines.push(format!("  {}", stmts(site, i, &format!("ghb{}.b", i), n))),
             "pf" => s.lines.push(format!("  fpf{}();", i)),
+            "" if site.kind == "decoy" => s.lines.push(format!(
+                "  float3 da{i} = d{i}a.Load(0); float3 db{i} = d{i}b[0]; float3 dc{i} = d{i}c.Load(int3(0, 0, 0)); \
+                 d{i}d[uint2(0, 0)] = da{i}; uint3 dd{i} = d{i}f.Load3(0); d{i}l.Store3(0, dd{i}); float de{i} = d{i}s[0]; \
+                 uint df{i}; InterlockedAdd(d{i}u[0], 1, df{i}); float3 dg{i} = asfloat(dd{i});",
+                i = i
+            )),
             "" if site.kind == "sblocal" => {
                 s.lines.push(format!("  StructuredBuffer<{}> l{};", targ(n), i));
                 site_line[i] = s.lines.len();
@@ -1343,7 +1363,7 @@ fn prog_source(p: &Prog) -> (String, ProgLines) {
 fn property_site(site: &Site) -> Option<Option<&'static str>> {
     if site.wrap.is_empty() {
         match site.kind.as_str() {
-            "sb" | "rwsb" | "sbc" | "sbtd" | "sbreg" | "sbmulti" | "sbns" | "sbst" | "sbex" => Some(None),
+            "sb" | "rwsb" | "sbc" | "sbtd" | "sbreg" | "sbmulti" | "sbns" | "sbst" | "sbex" | "sbtwo" => Some(None),
             "sbarr" | "rwsbarr" | "sbarr2" | "sbarru" | "sbbl" | "sbtdarr" => Some(Some("site-sbarr")),
             "sbarrtd" | "sbarrtd2" => Some(Some("site-sbarr-typedef")),
             "sbmem" | "cbmem" => Some(Some("site-sbmem")),
@@ -1391,17 +1411,24 @@ fn run_prog(p: &Prog, out: &mut Out, hist: &mut Hist) {
     };
     // the oracle judges structures: every `$k` is replaced by what it names
     let xt = expand_table(&p.tys);
+    // the element type at the site: the entry itself, or (sbtwo) the instance `WT<S>` = a struct with the one member S
+    let site_tys: Vec<Ty> = p
+        .sites
+        .iter()
+        .map(|s| if s.kind == "sbtwo" { Ty::Struct(vec![xt[s.ty].clone()]) } else { xt[s.ty].clone() })
+        .collect();
     let uses: Vec<Use> = p
         .sites
         .iter()
-        .filter_map(|s| {
-            property_site(s).map(|c| Use { ty: &xt[s.ty], site_class: c, what: format!("[{}]", show_site(s)) })
+        .enumerate()
+        .filter_map(|(i, s)| {
+            property_site(s).map(|c| Use { ty: &site_tys[i], site_class: c, what: format!("[{}]", show_site(s)) })
         })
         .collect();
     let blamed = match line {
         Some(l) => {
             if let Some(i) = lines.site_line.iter().position(|x| *x == l) {
-                Blamed::Type(&xt[p.sites[i].ty])
+                Blamed::Type(&site_tys[i])
             } else if let Some(k) = lines.type_line.iter().position(|x| *x == l) {
                 Blamed::Type(&xt[k])
             } else {
@@ -2011,6 +2038,35 @@ fn prog_streams(args: &Args, rng: &mut Rng, out: &mut Out, hist: &mut Hist) {
         }
         let style = if rng.chance(1, 2) { 0 } else { rng.next() | 1 };
         let mut p = mk(*rng.pick(&targets), rng.chance(1, 3), style, tys.clone(), ss);
+        p.opt = rng.chance(1, 3);
+        run_prog(&p, out, hist);
+    }
+    // P6. many: 8-24 sites over 3-6 types, the one differing structure (if any) anywhere; one struct of 10-24 members
+    let n = if thorough { 4000 } else { 150 };
+    for q in 0..n {
+        let nt = rng.range(3, 6) as usize;
+        let odd_one = if rng.chance(3, 4) { rng.below(nt as u64) as usize } else { usize::MAX };
+        let mut tys = Vec::new();
+        for k in 0..nt {
+            tys.push(if k == odd_one {
+                if q % 3 == 0 {
+                    Ty::Struct((0..rng.range(10, 24)).map(|_| random_leaf(rng)).collect())
+                } else {
+                    random_struct(rng, 2, 5)
+                }
+            } else if q % 3 == 1 && k == 0 {
+                Ty::Struct((0..rng.range(10, 24)).map(|_| Ty::Scalar(*rng.pick(SCALARS))).collect())
+            } else {
+                agreeing_struct(rng)
+            });
+        }
+        let ns = rng.range(8, 24) as usize;
+        let mut ss = Vec::new();
+        for _ in 0..ns {
+            ss.push((rng.pick(&sites), rng.below(nt as u64) as usize));
+        }
+        let style = if rng.chance(1, 2) { 0 } else { rng.next() | 1 };
+        let mut p = mk(*rng.pick(&targets), rng.chance(1, 3), style, tys, ss);
         p.opt = rng.chance(1, 3);
         run_prog(&p, out, hist);
     }
